@@ -106,6 +106,16 @@ def check_case(ctx, model, table, store):
         ctx.count("end-check-raised")
     except Exception as error:
         crashed = error
+    for item in items:
+        # an error handed to the caller describes its row for good, also after the reader has moved on
+        if item[0] == "error":
+            ctx.count("errors.reinspected")
+            now = gen.snapshot(item[1])
+            if now != item[2]:
+                ctx.case(case, True)
+                ctx.violation("C04:error-changed-after-iteration", case, "a reported error no longer names its row / column after the reader moved on",
+                              expected=item[2], observed=now)
+                return
     n_acc = sum(1 for e in expected["items"] if e[0] == "row")
     n_rej = len(expected["items"]) - n_acc
     ctx.case(case, n_acc >= 1 and n_rej >= 1)
